@@ -243,8 +243,10 @@ class Matcher:
         if type(a) != type(b) and not (isinstance(a, (list, tuple)) and isinstance(b, (list, tuple))):
             raise Diff("%s: %r against %r" % (path, _short(a), _short(b)))
         if isinstance(a, dict):
-            ka = set(k for k in a if k not in top_ignore and k not in self.ignore and not _nullish(self.gs, a[k]))
-            kb = set(k for k in b if k not in top_ignore and k not in self.ignore and not _nullish(self.gn, b[k]))
+            ka = set(k for k in a if k not in top_ignore and k not in self.ignore and not _nullish(self.gs, a[k]) and not _is_default(self.gs, k, a[k]))
+            kb = set(k for k in b if k not in top_ignore and k not in self.ignore and not _nullish(self.gn, b[k]) and not _is_default(self.gn, k, b[k]))
+            if "Type" in kb and "Type" not in ka and isinstance(deref(self.gn, b["Type"]), Name):
+                kb.discard("Type")      # an optional /Type stated by the copy only adds no content
             if ka != kb:
                 raise Diff("%s: keys differ: only in source %s, only in copy %s" % (path, sorted(ka - kb), sorted(kb - ka)))
             for k in sorted(ka):
@@ -278,6 +280,18 @@ def default_parms(g, k, v):
         if not isinstance(d, dict) or any(PARM_DEFAULTS.get(kk, object()) != deref(g, x) for kk, x in d.items()):
             return False
     return True
+
+
+# entries whose absence means exactly this value (Table 89 image dictionaries, Table 95 form dictionaries)
+ENTRY_DEFAULTS = {"ImageMask": False, "Interpolate": False, "FormType": 1}
+
+
+def _is_default(g, k, v):
+    if k not in ENTRY_DEFAULTS:
+        return False
+    v = deref(g, v)
+    d = ENTRY_DEFAULTS[k]
+    return type(v) == type(d) and v == d
 
 
 def _nullish(g, v):
